@@ -397,12 +397,41 @@ def coq_prepare():
         sh(['coq_makefile', '-f', '_CoqProject', '-o', 'Makefile'], cwd=COQ, check=True)
 
 
-def forbidden_scan():
-    """grep for Admitted/admit/Axiom/... over the development; returns list of hits."""
-    hits = []
-    for rel in _coq_files() + [os.path.relpath(p, COQ) for p in glob.glob(os.path.join(COQ, 'extract', '*.v'))]:
+def coq_closure(rel_files):
+    """transitive closure (paths relative to coq/) of the FF.* modules required by the given files"""
+    seen, todo = [], list(rel_files)
+    while todo:
+        rel = todo.pop()
+        if rel in seen:
+            continue
         p = os.path.join(COQ, rel)
-        txt = open(p).read()
+        if not os.path.exists(p):
+            continue
+        seen.append(rel)
+        txt = re.sub(r'\(\*.*?\*\)', ' ', open(p).read(), flags=re.S)
+        for m in re.finditer(r'From\s+FF\s+Require\s+(?:Import\s+|Export\s+)?([^.]*(?:\.[A-Za-z_][\w\']*[^.]*)*)\.(?:\s|$)', txt):
+            for mod in m.group(1).split():
+                todo.append('theories/' + mod.replace('.', '/') + '.v')
+        for m in re.finditer(r'Require\s+(?:Import\s+|Export\s+)?((?:FF\.[\w\.\']+\s*)+)\.(?:\s|$)', txt):
+            for mod in m.group(1).split():
+                todo.append('theories/' + mod[3:].replace('.', '/') + '.v')
+    return sorted(seen)
+
+
+def forbidden_scan(rel_files=None):
+    """grep for Admitted/admit/Axiom/... over the development (or only over the closure of rel_files and
+    the extraction files); returns list of hits."""
+    hits = []
+    if rel_files is None:
+        files = _coq_files()
+    else:
+        files = coq_closure(rel_files)
+    for rel in files + [os.path.relpath(p, COQ) for p in glob.glob(os.path.join(COQ, 'extract', '*.v'))]:
+        p = os.path.join(COQ, rel)
+        try:
+            txt = open(p).read()
+        except OSError:
+            continue
         # strip comments (non-nested approximation is enough: we forbid the words in code)
         txt2 = re.sub(r'\(\*.*?\*\)', lambda m: ' ' * len(m.group(0)), txt, flags=re.S)
         for m in FORBIDDEN.finditer(txt2):
@@ -418,6 +447,14 @@ def coq_build(targets, timeout=1500):
         coq_prepare()
         t0 = time.time()
         rc, out, _ = sh(['make', '-j%d' % NPROC, '-k'] + targets, cwd=COQ, timeout=timeout)
+        if rc != 0 and ('No rule to make target' in out or 'No such file' in out):
+            # a file listed in _CoqProject vanished (scratch file of a concurrent run): re-list and retry once
+            try:
+                os.unlink(os.path.join(COQ, 'Makefile'))
+            except OSError:
+                pass
+            coq_prepare()
+            rc, out, _ = sh(['make', '-j%d' % NPROC, '-k'] + targets, cwd=COQ, timeout=timeout)
         res = dict(ok=(rc == 0), log=out, seconds=time.time() - t0, failed_file=None, failed_line=None,
                    failed_lemma=None, error=None)
         if rc != 0:
